@@ -336,7 +336,7 @@ fn gen_cp(rng: &mut Rng) -> u32 {
 }
 
 const WORDS: &[&str] = &["LATIN", "CAPITAL", "LETTER", "A", "WITH", "GRAVE", "SPACE", "NULL", "CJK", "IDEOGRAPH", "DIGIT", "ZERO", "HANGUL", "SYLLABLE", "SIGN", "NO-BREAK", "<control>", "<reserved>", "..", "or", "PVALID", "0041", "First>", "<CJK"];
-const MB: &[&str] = &["\u{e9}", "\u{df}", "\u{3a9}", "\u{5d0}", "\u{20ac}", "\u{3042}", "\u{4e2d}", "\u{ac00}", "\u{1f412}", "\u{10ffff}", "\u{a0}", "\u{2028}", "\u{feff}"];
+const MB: &[&str] = &["\u{e9}", "\u{df}", "\u{3a9}", "\u{5d0}", "\u{20ac}", "\u{3042}", "\u{4e2d}", "\u{ac00}", "\u{1f412}", "\u{10ffff}", "\u{a0}", "\u{2028}", "\u{2029}", "\u{85}", "\u{feff}", "\u{3000}"];
 
 pub const DESC_SHAPES: [&str; 10] = ["words", "commas", "edge_spaces", "first_last", "multibyte", "one_byte", "contains_or", "long", "punct", "digits_hex"];
 
@@ -369,7 +369,7 @@ fn gen_desc(rng: &mut Rng, cfg: &GenCfg) -> String {
             }
             s
         }
-        8 => { let p = ["\"quoted\"", "a;b", "tab\there", "x=y", "semi;colon", "back\\slash", "'", "#", "%41", "a--b", "-", "--"]; rng.pick(&p).to_string() }
+        8 => { let p = ["\"quoted\"", "a;b", "tab\there", "x=y", "semi;colon", "back\\slash", "'", "#", "%41", "a--b", "-", "--", "form\u{c}feed", "v\u{b}tab", "\u{a0}nbsp at both ends\u{a0}", "\u{2028}", "# comment?", "//", "\"", "a,\"b,c\",d"]; rng.pick(&p).to_string() }
         _ => format!("{:04X}..{:04X}", rng.below(0x10000), rng.below(0x110000)),
     };
     if d.is_empty() {
@@ -456,7 +456,16 @@ pub fn gen_cfg(rng: &mut Rng, thorough: bool) -> GenCfg {
         5..=44 => 1 + rng.usize_below(5),
         45..=89 => 6 + rng.usize_below(35),
         90..=98 => 41 + rng.usize_below(260),
-        _ => if thorough { 1000 + rng.usize_below(600) } else { 1000 + rng.usize_below(60) },
+        _ => {
+            // now and then more lines than a 16-bit counter holds
+            if rng.chance(1, if thorough { 40 } else { 120 }) {
+                65_500 + rng.usize_below(600)
+            } else if thorough {
+                1000 + rng.usize_below(600)
+            } else {
+                1000 + rng.usize_below(60)
+            }
+        }
     };
     let mut desc_shapes: Vec<u8> = (0..DESC_SHAPES.len() as u8).filter(|s| if *s == 7 { rng.chance(1, 6) } else { rng.chance(1, 2) }).collect();
     if desc_shapes.is_empty() {
